@@ -153,3 +153,54 @@ def reports():
     reps.append(deductive.verify_function(REL, 'CliqueVector.combine', COMBINE, hooks=combine_hooks(), prefix='%s::CliqueVector.combine[site contracts]' % REL))
     reps.append(combine_break_report())
     return reps
+
+
+def replay(ob):
+    """Replay a refuted CliqueVector obligation on the real class: two cliques with random tables, the scalar from the counter-model
+    (default 2.5); the real method's result is compared key by key with the operation applied to the tables with numpy."""
+    import re
+    import numpy as np
+    from .. import env
+    env.ensure_repo_importable()
+    from fractions import Fraction
+    m = re.search(r'CliqueVector\.(__mul__|__rmul__|__add__|__sub__|exp|log|combine)', ob.name)
+    if not m:
+        return None
+    meth = m.group(1)
+    c = 2.5
+    for k, v in (ob.model or {}).items():
+        if re.match(r'^(const|other)$', k):
+            try:
+                c = float(Fraction(str(v).replace('?', '')))
+            except (ValueError, ZeroDivisionError):
+                pass
+    from mbi import Domain, Factor, CliqueVector
+    rng = np.random.RandomState(7)
+    dom = Domain(['a', 'b', 'c'], [2, 3, 2])
+    cliques = [('a',), ('a', 'b'), ('b', 'c')]
+    mk = lambda: CliqueVector({cl: Factor(dom.project(cl), rng.rand(*dom.project(cl).shape) + 0.5) for cl in cliques})
+    x, y = mk(), mk()
+    scalar = '[scalar]' in ob.name
+    try:
+        if meth in ('__mul__', '__rmul__'):
+            got, exp = getattr(x, meth)(c), {cl: c * x[cl].values for cl in cliques}
+        elif meth == '__add__':
+            got, exp = (x + c, {cl: x[cl].values + c for cl in cliques}) if scalar else (x + y, {cl: x[cl].values + y[cl].values for cl in cliques})
+        elif meth == '__sub__':
+            got, exp = x - y, {cl: x[cl].values - y[cl].values for cl in cliques}
+        elif meth in ('exp', 'log'):
+            got, exp = getattr(x, meth)(), {cl: getattr(np, meth)(x[cl].values) for cl in cliques}
+        else:
+            # combine: a table on ('a',) goes into the first clique of self that contains it, once
+            before = {cl: x[cl].values.copy() for cl in cliques}
+            small = CliqueVector({('b',): Factor(dom.project(('b',)), rng.rand(3) + 0.5)})
+            x.combine(small)
+            got = x
+            exp = dict(before)
+            exp[('a', 'b')] = before[('a', 'b')] + small[('b',)].values[None, :]
+    except Exception as e:
+        return dict(reproduced=True, inputs=dict(method=meth, scalar=c), raised='%s: %s' % (type(e).__name__, e))
+    bad = [str(cl) for cl in cliques if cl not in got or not np.allclose(np.asarray(got[cl].values, dtype=float), exp[cl], rtol=1e-12, atol=1e-12)]
+    extra = [str(cl) for cl in got if cl not in cliques]
+    return dict(reproduced=bool(bad or extra), inputs=dict(method=meth, scalar=c, cliques=[list(cl) for cl in cliques], tables='numpy RandomState(7).rand + 0.5'),
+                cliques_with_wrong_tables=bad, unexpected_cliques=extra)
